@@ -373,4 +373,24 @@ example : ((S demo2 4).traps 1).armed = .stop := by decide
 example : firesAt (fun k => [Ev.runCmd, .setHandler 0 true, .setHandler 1 true, .on 0, .on 1, .occur 1,
     .occur 0, .dispatch [1, 0]].getD k .gosub) 7 = [1, 0] := by decide
 
+/-! ### `RETURN <line>` is RETURN as far as the traps are concerned (program-level machine `Vm`) -/
+
+/-- **return_line_is_return.**  In every state of the program-level machine, `RETURN <line k>` has exactly the effect of
+    a plain RETURN on the trap flags (`core`: the trap whose handler frame is popped is re-armed, nothing else
+    changes), on the GOSUB stack and on the error state; without a frame both raise RETURN without GOSUB. -/
+theorem return_line_is_return (p : Prog) (v : Vm) (k : Nat) :
+    (exec p v (.retTo k)).core = (exec p v .ret).core ∧
+    (exec p v (.retTo k)).rstack = (exec p v .ret).rstack ∧
+    (exec p v (.retTo k)).inErr = (exec p v .ret).inErr ∧
+    (exec p v (.retTo k)).halted = (exec p v .ret).halted := by
+  simp only [exec]
+  cases v.rstack with
+  | nil => exact ⟨rfl, rfl, rfl, rfl⟩
+  | cons r rs => exact ⟨rfl, rfl, rfl, rfl⟩
+
+/-- … and with a frame on the stack it continues at line `k` (plain RETURN: at the saved position) -/
+theorem return_line_continues_at (p : Prog) (v : Vm) (k r : Nat) (rs : List Nat) (h : v.rstack = r :: rs) :
+    (exec p v (.retTo k)).pc = k ∧ (exec p v .ret).pc = r := by
+  simp [exec, h]
+
 end PcbV.C38
